@@ -118,7 +118,7 @@ def parse_cases(lines, tag="@@CASE "):
 
 
 CASE_GROUPS = ["unary", "unaryvec", "scale", "partial", "rotate", "euler", "quat", "rotaxis", "transform",
-               "boostaxis", "binvec", "binnum", "boost", "cmp", "pred"]
+               "boostaxis", "binvec", "binnum", "boost", "cmp", "pred", "rawtau"]
 
 
 def _gen_group(args):
@@ -134,7 +134,7 @@ def _gen_group(args):
 
 def gen_cases(tier="quick", groups=None, use_cache=True):
     """All one-call cases of Cases.tla for the tier.  Returns (cases, stats)."""
-    groups = list(groups or CASE_GROUPS)
+    groups = list(groups or [g for g in CASE_GROUPS if g != "rawtau"])     # rawtau cases are object-storage specific: on request
     key = spec_hash("cases", tier)
     cache_dir = os.path.join(SCRATCH_ROOT, "vverif-cache")
     os.makedirs(cache_dir, exist_ok=True)
